@@ -200,4 +200,6 @@ def check(model: Model, tier: str):
         pass
     from ..dtypekind import rule_narrow
     obs += rule_narrow(model, [model.func(a) for a in ['_decomposition.round_tt', '_tt_base.TT.round']])
+    from ..adjoint import rule_adjoint
+    obs += rule_adjoint(model, [model.func(a) for a in ["_decomposition.round_tt", "_decomposition.lr_orthogonal", "_decomposition.rl_orthogonal"]])
     return obs, {"functions": ANCHORS}
